@@ -11,7 +11,8 @@ UNIT = dict(
         "InFlightGuard::drop@Drop": dict(rules=[("addarg", ["fetch_sub"], TR, 1)]),
         "AdaptiveService::clone@Clone": dict(),
         "AdaptiveService::poll_ready@Service": dict(rules=[
-            ("addarg", ["limit", "load"], TR, 2),
+            ("sub", "R6", r"\.algorithm\.limit\(\)", ".algorithm.limit(%s)" % TR, -1),
+            ("sub", "R6", r"\.in_flight\.load\(([^()]*)\)", r".in_flight.load(\1, %s)" % TR, -1),
             ("addarg", ["fetch_add", "fetch_sub"], TR, -1),
             ("R10p", "AdaptiveError::Service"),
         ]),
